@@ -10,7 +10,7 @@ from mc import universe
 ID = "C02"
 LEVEL = "exploration"
 RULE = ("inputs = for every configured type the full product of per-key value sets (closed vocabulary members, "
-        "digit-pattern boundary instances, names incl. the file-name separator, '*', '>', every alias in the last "
+        "digit-pattern boundary instances, names incl. the file-name separator and the empty value where the key's pattern accepts it, '*', '>', every alias in the last "
         "position); kept when the reference types the string naturally to some type. For each: Sid(uri), "
         "Sid(fields=perm) for all permutations (<=5 keys) or identity/reversal/rotations/adjacent transpositions, "
         "Sid(query=as_query()), eval(repr()), copy(). distinct = distinct strings; non-trivial = every case (all are typed).")
@@ -100,8 +100,8 @@ def params(tier):
     if tier == "c20":
         return dict(n_closed=1, n_digit=1, n_names=1, search="star-only")
     if tier == "thorough":
-        return dict(n_closed=2, n_digit=2, n_names=2)
-    return dict(n_closed=1, n_digit=1, n_names=2)
+        return dict(n_closed=2, n_digit=2, n_names=2, empty=True)
+    return dict(n_closed=1, n_digit=1, n_names=2, empty=True)
 
 
 def gen(ref, tier):
